@@ -234,6 +234,14 @@ def configs(quick):
     T1, T2, T3 = ("ONE",), ("TWO",), ("THREE",)
     out.append({"name": "cdda:3x2", "kind": "cdda", "parts": [
         P(T1, ("read", 4096), ("read", 2352 + 1)), P(T2, ("read", 1), ("read", 4096)), P(T3, ("seek", 2352), ("read", 4096))]})
+    # read-to-end requests (read(-1) / read(None)) issued after another stream has moved the shared handle
+    out.append({"name": "cdda:read-to-end", "kind": "cdda", "parts": [
+        P(T1, ("read", 4096), ("read", -1)), P(T2, ("read", 1), ("read", -1)), P(T3, ("seek", 2352), ("read", None))]})
+    out.append({"name": "roland:read-to-end", "kind": "roland", "parts": [
+        P(R0, ("read", 4096), ("read", -1)), P(R1, ("read", 2), ("read", -1)), P(R2, ("read", None))]})
+    for kind in ("akai", "akai2352"):
+        out.append({"name": kind + ":read-to-end", "kind": kind, "parts": [
+            P(A1, ("read", 4096), ("read", -1)), P(A2, ("seek", 3), ("read", None)), P(AB, ("read", 2), ("read", -1))]})
     out.append({"name": "cdda:2x4", "kind": "cdda", "parts": [
         P(T1, ("read", 2351), ("read", 2), ("read", 4096), ("read", 4096)), P(T2, ("read", 4096), ("seek", 0), ("read", 2353), ("read", 1))]})
     return out
@@ -247,7 +255,7 @@ class Check(CheckBase):
             "second partition, an L/R pair through the transcoder, lazy directory listings; Roland: forward + reverse-mode "
             "sample + listing of another performance, a shared sample with a leading-cluster offset, two samples living in one fragmented chain; CDDA: three tracks): ALL interleavings of the participants' call programs "
             "(block reads of 1, 2, 4096, sector-1, sector+1 bytes, sector-aligned reads of a contiguous file that end "
-            "exactly on a sector boundary, absolute seeks, ls of unrealised directories, transcoder "
+            "exactly on a sector boundary, read-to-end requests, absolute seeks, ls of unrealised directories, transcoder "
             "steps) on one fresh image object per schedule; thorough adds 3x3-step programs over all 25 block-size pairs. "
             "Oracle: each participant's observations equal those of the same program run alone on a fresh image. states = "
             "schedules, transitions = steps. non-trivial = schedule with >=2 context switches")
